@@ -5,13 +5,10 @@
     two descriptors delete). *)
 From Coq Require Import Strings.String List Bool Arith.
 From PV Require Import Upgrade.Model Upgrade.Proofs.
+From PV Require Export Upgrade.Baseline.
 From PV Require Generated.GenUpgrade.
 Import ListNotations.
 Open Scope string_scope.
-
-Definition baseline : list string :=
-  ["acc"; "bank"; "staking"; "mint"; "distribution"; "slashing"; "gov"; "params"; "ibc"; "upgrade"; "evidence";
-   "transfer"; "capability"; "aol"; "did"; "burn"; "token"; "wasm"].
 
 Theorem repo_accounted : accounted baseline GenUpgrade.upgrades GenUpgrade.mounted_stores = true.
 Proof. vm_compute. reflexivity. Qed.
